@@ -1,6 +1,7 @@
 #!/bin/bash
 # Runs the repository's own test suite with the verification guard OFF (no tags, no overlay), as in BASELINE.json.
 source /verif/bin/env.sh
+unset ELKWARN ELKPATH   # the repository suite expects default warning behaviour
 cd /repo || exit 2
 clean=0; git diff --quiet go.mod go.sum && clean=1
 go test -mod=mod -json -vet=off -count=1 -timeout 25m ./...
